@@ -240,7 +240,9 @@ class Explorer(object):
                         nxt.append(k2)
                         if state_cap is not None and len(self.rep) >= state_cap:
                             capped = True
-                    elif k2 not in self.second and self.rep_last[k2] != ev and k2 != k:
+                    elif k2 not in self.second and self.rep_last[k2] != ev:
+                        # a different way into the same key (self-loops included: "the same event again"
+                        # and pure memo effects are then compared with the representative)
                         self.second[k2] = res["hist"] + (ev,)
             level += 1
             completed = level
@@ -259,7 +261,7 @@ class Explorer(object):
         if res["digests"] is not None:
             self.digest[k] = res["digests"]
 
-    def validate_seconds(self, expand_names=None, max_level=None, probe_levels=None):
+    def validate_seconds(self, expand_names=None, max_level=None, probe_levels=None, oracle=None):
         """Expand the second representative of every expanded key that has one; any difference in
         observations, successor keys or digests means the key is too coarse (machinery error)."""
         todo = [(k, h) for k, h in self.second.items() if k in self.succ
@@ -276,6 +278,8 @@ class Explorer(object):
         results = [r for p, r in results]
         for (k, h), res in zip(todo, results):
             self.second_checked += 1
+            if oracle is not None and oracle(k, res):
+                continue       # the second representative itself violates the property: reported by the oracle
             a = self.succ[k]
             b = dict((ev, (obs, k2)) for ev, obs, k2 in res["edges"])
             pa, pb = self.probe[k], dict(res["probes"])
